@@ -8,6 +8,8 @@ package main
 // An obligation sees exactly the facts emitted before it.
 
 import (
+	"os"
+	"runtime"
 	"fmt"
 	"go/token"
 	"go/types"
@@ -234,6 +236,25 @@ func (ex *Exec) resolveType(name string, pkg *types.Package) types.Type {
 	}
 	if name == "any" {
 		return types.NewInterfaceType(nil, nil)
+	}
+	if strings.HasPrefix(name, "map[") {
+		depth := 0
+		for i := 3; i < len(name); i++ {
+			switch name[i] {
+			case '[':
+				depth++
+			case ']':
+				depth--
+				if depth == 0 {
+					kt, vt := ex.resolveType(name[4:i], pkg), ex.resolveType(name[i+1:], pkg)
+					if kt == nil || vt == nil {
+						return nil
+					}
+					return types.NewMap(kt, vt)
+				}
+			}
+		}
+		return nil
 	}
 	if i := strings.Index(name, "."); i >= 0 {
 		p := ex.pkgByName(name[:i], pkg)
@@ -736,7 +757,7 @@ func (ex *Exec) enterLoop(fr *frame, h *ssa.BasicBlock, body map[*ssa.BasicBlock
 	lr := &loopRec{header: h, ord: ord, blocks: body, entrySt: s.clone(), vars: map[string]Val{}}
 	fr.loops[h] = lr
 	if fr.contract != nil {
-		lr.invs = fr.contract.Loops[ord]
+		lr.invs = append(append([]Clause{}, fr.contract.Loops[0]...), fr.contract.Loops[ord]...)
 	}
 	lr.invs = append(lr.invs, ex.autoInvariants(fr, lr)...)
 	if fr.top && fr.contract != nil && contains(fr.contract.Modifies, "newobjects") {
@@ -769,7 +790,7 @@ func (ex *Exec) enterLoop(fr *frame, h *ssa.BasicBlock, body map[*ssa.BasicBlock
 	}
 	sort.Strings(ks)
 	precise := ex.loopPrecise(fr, lr, s)
-	var wfLater []string
+	var wfLater []Val
 	for _, k := range ks {
 		if k == "*new" {
 			u.keySort("next", SInt)
@@ -806,9 +827,7 @@ func (ex *Exec) enterLoop(fr *frame, h *ssa.BasicBlock, body map[*ssa.BasicBlock
 		if lt, ok := ex.localTyp[k]; ok && isLocalKey(k) {
 			// a local of slice / interface / pointer / map type holds a well-formed value of that type
 			// in every iteration (Go's type system; the havoc forgets which one)
-			if f := ex.wf(Val{T: hv, Typ: lt}, s2); f != "true" {
-				wfLater = append(wfLater, f)
-			}
+			wfLater = append(wfLater, Val{T: hv, Typ: lt})
 		}
 	}
 	kk := u.havoc(s2, lr.kKey)
@@ -818,8 +837,12 @@ func (ex *Exec) enterLoop(fr *frame, h *ssa.BasicBlock, body map[*ssa.BasicBlock
 		u.fact(implies(g, app(">=", u.get(s2, "next"), smtName("next"))))
 	}
 	lr.modLocal = ks
-	for _, f := range wfLater {
-		u.fact(implies(g, f))
+	// well-formedness of the havoced locals against the allocation counter as it is now (after its own havoc):
+	// a local may hold an object allocated in an earlier iteration
+	for _, hv := range wfLater {
+		if f := ex.wf(hv, s2); f != "true" {
+			u.fact(implies(g, f))
+		}
 	}
 	for _, inv := range lr.invs {
 		env := ex.specEnv(fr, s2, lr)
@@ -1029,6 +1052,21 @@ func (ex *Exec) specEnv(fr *frame, cur *State, lr *loopRec) *SpecEnv {
 		}
 		env.vars[n] = Val{T: cur.vars[fr.allocKey[pick]], Typ: deref(pick.Type())}
 	}
+	// named array-typed locals: the current row of their backing array
+	for v, rv := range fr.regs {
+		a, ok := v.(*ssa.Alloc)
+		if !ok || a.Comment == "" || rv.T == "" {
+			continue
+		}
+		at := deref(a.Type())
+		if at == nil || !isRowArray(at) {
+			continue
+		}
+		if _, shadow := env.vars[a.Comment]; shadow && !isParamAlloc(fr, []*ssa.Alloc{a}) {
+			continue
+		}
+		env.vars[a.Comment] = ex.u.load(cur, &Loc{Kind: LCell, Base: rv.T, Typ: at})
+	}
 	if lr != nil {
 		env.entry = lr.entrySt
 		env.vars["$k"] = intVal(cur.vars[lr.kKey])
@@ -1055,6 +1093,11 @@ func containsStr(xs []string, x string) bool { return contains(xs, x) }
 
 func (ex *Exec) havocAll(s *State) {
 	u := ex.u
+	if os.Getenv("GOVC_DEBUG_HAVOC") != "" {
+		buf := make([]byte, 2048)
+		n := runtime.Stack(buf, false)
+		fmt.Fprintf(os.Stderr, "havocAll at:\n%s\n", buf[:n])
+	}
 	var ks []string
 	for k := range u.keySorts {
 		if !isLocalKey(k) {
@@ -1503,6 +1546,10 @@ func (ex *Exec) instr(fr *frame, in ssa.Instruction, g string, s *State) string 
 		i := ex.value(fr, in.Index, s)
 		if sortOfSafe(in.X.Type()) == SStr {
 			fr.regs[in] = Val{T: app("strAt", x.T, i.T), Typ: in.Type()}
+			return g
+		}
+		if isRowArray(in.X.Type()) && x.T != "" {
+			fr.regs[in] = Val{T: sel(x.T, i.T), Typ: in.Type()}
 			return g
 		}
 		ex.failf("index on %s", typeKey(in.X.Type()))
